@@ -48,6 +48,19 @@ impl<R> ReaderCursor<R> {
     }
 }
 
+#[cfg(grenad_verif)]
+impl<R> ReaderCursor<R> {
+    /// Verification hook: a description of the internal state of this cursor.
+    pub fn verif_fingerprint(&self) -> crate::verif::CursorFingerprint {
+        crate::verif::CursorFingerprint {
+            index: self.index_block_cursor.inner.as_ref().map(|inner| {
+                inner.iter().map(|(off, c)| c.verif_fingerprint(Some(*off))).collect()
+            }),
+            data: self.current_cursor.as_ref().map(|c| c.verif_fingerprint(None)),
+        }
+    }
+}
+
 impl<R: io::Read + io::Seek> ReaderCursor<R> {
     /// Creates a new [`ReaderCursor`] by consumming a [`Reader`].
     pub(crate) fn new(reader: Reader<R>) -> Result<ReaderCursor<R>, Error> {
